@@ -14,7 +14,7 @@ def lattice(tier):
     if tier == "quick":
         T, S, A, N = 4, (16, 48, 112), (16, 64), 3
     else:
-        T, S, A, N = 5, (16, 48, 100, 112), (16, 32, 64, 128), 3
+        T, S, A, N = 4, (16, 48, 100, 112), (16, 32, 64, 128), 3
     iv = [(s, e) for s in range(T) for e in range(s, T)]
     items = [(s, e, sz, al) for (s, e) in iv for sz in S for al in A]
     return items, N
@@ -45,7 +45,7 @@ def _vela():
     return _mods
 
 
-def mk_graph(specs, equiv=(), dups=()):
+def mk_graph(specs, equiv=(), dups=(), api=None):
     """equiv: indices whose live range carries a second, equivalent tensor (clone);
     dups: pairs (i, j) declared duplicate constants (LinearAlloc rule)."""
     m = _vela()
@@ -55,10 +55,20 @@ def mk_graph(specs, equiv=(), dups=()):
     for i, (s, e, sz, al) in enumerate(specs):
         t = m["Tensor"]([sz], m["DataType"].uint8, "t%d" % i)
         t.alignment = 1
-        lr = m["LiveRange"](t, al)
+        if api is None:
+            lr = m["LiveRange"](t, al)
+            g.lrs.append(lr)
+            g.ranges[t] = lr
+        else:
+            # the range is registered through the graph API, as the compiler does: a first request and a later one with another
+            # alignment for the same tensor ("up": 16 then al, "down": al then 16) or for an equivalent clone ("clone")
+            first, second = (al, 16) if api == "down" else (min(16, al), al)
+            lr = g.get_or_create_range(t, first)
+            other = t.clone("_rq") if api == "clone" else t
+            lr2 = g.get_or_create_range(other, second)
+            if lr2 is not lr:
+                raise core.HarnessError("second request created a new range")
         lr.start_time, lr.end_time, lr.size = s, e, sz
-        g.lrs.append(lr)
-        g.ranges[t] = lr
         tens.append([t])
         if i in equiv:
             c = t.clone("_eq")
@@ -88,10 +98,10 @@ def mk_graph(specs, equiv=(), dups=()):
     return g, tens
 
 
-def run_allocator(name, specs, equiv=(), dups=(), max_iter=None, mem_limit=1 << 40, rng_perturb=None):
+def run_allocator(name, specs, equiv=(), dups=(), max_iter=None, mem_limit=1 << 40, rng_perturb=None, api=None):
     """Returns dict(addrs=[[addr per tensor] per range], total=int, iters=int) or dict(error=...)."""
     m = _vela()
-    g, tens = mk_graph(specs, equiv, dups)
+    g, tens = mk_graph(specs, equiv, dups, api)
     maxal = max(al for *_, al in specs)
     iters = [0]
     try:
@@ -154,6 +164,8 @@ def _eval(specs, tier, stats):
         variants += [("greedy", dict(equiv=(0,))), ("hill", dict(equiv=(n - 1,))), ("linear", dict(equiv=(0,)))]
         if specs[0][2] == specs[1][2]:
             variants.append(("linear", dict(dups=((0, 1),))))
+    if n <= 2 or tier == "thorough":
+        variants += [("greedy", dict(api="up")), ("hill", dict(api="up")), ("greedy", dict(api="clone")), ("hill", dict(api="down")), ("linear", dict(api="up"))]
     for name, kw in variants:
         res = run_allocator(name, specs, **kw)
         stats["calls"] = stats.get("calls", 0) + 1
